@@ -122,6 +122,9 @@ class SubCheck:
     hard_timeout: tuple = (400.0, 1500.0)
     exhaustive: bool = False
     doc: str = ""
+    # thorough tier only: additionally drive the machine with atheris/libFuzzer
+    # {"instrument": ["module:Class", ...], "shards": n, "runs": n, "max_seconds": s}
+    fuzz: Optional[dict] = None
 
 
 def jsonable(x):
